@@ -181,6 +181,9 @@ func (g *G) GenMgmtOp(cur SetModel, nNames, salSpan int, ver *int, kinds []int, 
 	switch o.Kind {
 	case OpFull, OpIncr:
 		k := g.Range(1, 4)
+		if nNames > 6 && g.Pct(40) {
+			k = g.Range(1, nNames) // large batches on large name sets
+		}
 		if k > nNames {
 			k = nNames
 		}
@@ -311,6 +314,9 @@ func RunW3Builder(plan, sched *simrt.Source, trace bool) *RunOut {
 	o := &RunOut{}
 	cfg := g.GenConfig(trace)
 	nNames := g.Range(1, 6)
+	if g.Pct(5) {
+		nNames = g.PickInt([]int{7, 9, 12, 17, 24}) // "arbitrary sets of rule names": a few large ones
+	}
 	salSpan := g.Range(0, 2)
 	nOps := 1 + g.Intn(deep(12, 12))
 	ver := 0
